@@ -136,6 +136,19 @@ static void sha1_compress(std::uint32_t state[4], const std::uint8_t* buf)
     state[4] = state[4] + e;
 }
 
+#if defined(TLX_VERIF)
+// verification hook (off unless TLX_VERIF is defined): direct access to the
+// compression function, and optional redirection of its calls to a recorder.
+void tlx_verif_real_sha1_compress(std::uint32_t* state, const std::uint8_t* buf)
+{
+    sha1_compress(state, buf);
+}
+#if defined(TLX_VERIF_DIGEST_HOOK)
+void tlx_verif_sha1_compress(std::uint32_t* state, const std::uint8_t* buf);
+#define sha1_compress tlx_verif_sha1_compress
+#endif
+#endif // TLX_VERIF
+
 } // namespace digest_detail
 
 SHA1::SHA1()
